@@ -271,18 +271,20 @@ def run_extras(busname, mn):
     # neighbours in the file but 0x8000 apart as run addresses: out of range, must be rejected (under HiROM consecutive banks
     # are numerically contiguous, the statement is silent there)
     if busname == "low_rom":
-        for k in (0, 1, 2, 5, 100):
-            cross = [f"*=0x{base + whi - 2 - k:06x}\n{mn} nxt\n" + filler(k) + "nxt:\n.db 0xEA\n",
-                     f"*=0x{base + whi - 4 - k:06x}\nprv:\nnop\nnop\nnop\nnop\n" + filler(k) + f"{mn} prv\n",
-                     f"*=0x{base + whi - 2:06x}\n{mn} 0x{base + 0x10000 + wlo + k:06x}\n"]
-            for src in cross:
-                out = impl.assemble(src, rom=busname)
-                n += 1
-                if out.accepted:
-                    viol.append({"key": "branch:out-of-range-accepted:next-bank", "msg": f"{busname}: branch and target are in different banks, 0x8000 apart as run addresses: {out.brief()} :: {src!r}"})
-                    outcomes.add("CROSS-BANK-ACCEPTED")
-                else:
-                    outcomes.add("cross-bank-rejected")
+        for base in (bank << 16, (bank + 1) << 16):  # odd->even and even->odd neighbours (two LoROM banks share one 64 KiB chunk of the file)
+            for k in (0, 1, 2, 5, 100):
+                cross = [f"*=0x{base + whi - 2 - k:06x}\n{mn} nxt\n" + filler(k) + "nxt:\n.db 0xEA\n",
+                         f"*=0x{base + whi - 4 - k:06x}\nprv:\nnop\nnop\nnop\nnop\n" + filler(k) + f"{mn} prv\n",
+                         f"*=0x{base + whi - 2:06x}\n{mn} 0x{base + 0x10000 + wlo + k:06x}\n"]
+                for src in cross:
+                    out = impl.assemble(src, rom=busname)
+                    n += 1
+                    if out.accepted:
+                        viol.append({"key": "branch:out-of-range-accepted:next-bank", "msg": f"{busname}: branch and target are in different banks, 0x8000 apart as run addresses: {out.brief()} :: {src!r}"})
+                        outcomes.add("CROSS-BANK-ACCEPTED")
+                    else:
+                        outcomes.add("cross-bank-rejected")
+    base = bank << 16
     # (b)
     for size in (0x10, 0x3FF, 0x400, 0x401, 0x1000):
         for d in (-128, -3, 0, 5, 127, 128, -129):
